@@ -44,6 +44,8 @@ RULE = ('one bucket per name exported by algopy.nthderiv (enumerated at run time
         'the same (x, n) before or after it and checked as well (shared state between functions); non-trivial = n >= 2; '
         'distinct by descriptor hash')
 ASSUMPTIONS = [
+    'high-order:<name> buckets (n = 17..60, 15 functions): reference = the textbook closed form of the n-th derivative evaluated with 60 digits, '
+    'tolerance 1e-9 relative (sin/cos: 1e-9 absolute); references outside the double range are skipped and counted',
     'mpmath.diff at 45 digits (working precision (45 digits + 20 bits)*(n+1)) is the reference for the n-th derivative; '
     'mpmath, NumPy and SciPy are trusted',
     'tolerance 1e-9 * max(floor, |f^(n)(x)|, l |f^(n+1)(x)|) (hyperu 1e-7: accuracy of scipy.special.hyperu): relative to '
